@@ -675,6 +675,7 @@ func lexSoyDoc(l *lexer) stateFn {
 		if startOfLine {
 			// ignore any space or asterisks at the beginning of lines
 			if isSpaceEOL(ch) {
+				star = false // "* /" is not the end of the comment
 				continue
 			}
 			if ch == '*' {
